@@ -15,18 +15,23 @@ Spec: spec/Registry.tla (+ MC_C12, Trace_C12).
 
 import random
 
+_nontrivial = 0
+
 from common import MachineryFailure
 
 
-def _validate(ck, traces, label):
+def _validate(ck, traces, label, alias=False):
     if not traces:
         return
+    tcfg = "Trace_C12_alias" if alias else "Trace_C12"
+    if alias:
+        open(ck.spec + "/Trace_C12_alias.cfg", "w").write(open(ck.spec + "/Trace_C12.cfg").read().replace("Alias = FALSE", "Alias = TRUE"))
     # TLC reads the traces as one JSON array; chunk to keep the JVM heap modest
     CH = 40000
     for off in range(0, len(traces), CH):
         part = traces[off : off + CH]
         path = ck.write_json(f"traces_{label}_{off}.json", part)
-        res = ck.tlc("Trace_C12", env={"TRACES": path}, workers=1, coverage=False, label=f"trace-validation {label}", timeout=1800)
+        res = ck.tlc("Trace_C12", tcfg, env={"TRACES": path}, workers=1, coverage=False, label=f"trace-validation {label}", timeout=1800)
         expect = 1 + sum(len(t["ev"]) + 1 for t in part)
         if res.distinct != expect:
             raise MachineryFailure(f"trace validation consumed {res.distinct} states, expected {expect}")
@@ -36,8 +41,8 @@ def _validate(ck, traces, label):
             ck.drift_step(r["op"], {"history": [_short(e) for e in t["ev"][: r["l"]]], "model": r["model"], "observed": r["observed"]})
         for r in res.by_tag("P-FAIL"):
             t = part[r["tid"] - 1]
-            key = {"clause": r["clause"], "edit": r["edit"], "kind": r["kind"], "layer": r["layer"]}
-            ck.violation(key, {"probe": r["probe"], "observed": r["observed"], "expected": r["expected"], "via": r.get("via", "Unit()"), "history": [_short(e) for e in t["ev"]]}, case={"h": [_strip(e) for e in t["ev"]]})
+            key = {"clause": r["clause"], "edit": r["edit"], "kind": r["kind"], "layer": r["layer"], "spelling": r.get("spelling", ""), "route": r.get("via", "")}
+            ck.violation(key, {"probe": r["probe"], "observed": r["observed"], "expected": r["expected"], "via": r.get("via", "Unit()"), "history": [_short(e) for e in t["ev"]]}, case={"h": [_strip(e) for e in t["ev"]], "alias": alias})
 
 
 def _strip(e):
@@ -52,7 +57,7 @@ def _short(e):
 def run(ck):
     ck.level = "model_checking"
     ck.assumptions += [
-        "alphabet: symbols foo/qux, kilo-prefixed keys, scales {2,4}, dimensions {length,time}, 7 probe strings; real registries hold unyt's default symbols as well",
+        "two alphabets: {foo, qux} user symbols, and {foo, s} with the library's own symbol s probed through alias spellings (second, kilosecond); kilo prefix, scales {2,4}, dimensions {length,time}, 7 probe strings each; real registries hold unyt's default symbols as well",
         "TLC 32-bit integers: scales are small integers; floats never enter TLC",
         "known findings are matched on (clause, memo layer, last edit kind, probe kind)",
     ]
@@ -62,49 +67,57 @@ def run(ck):
         blob = json.load(open(ck.replay))
         cases = [blob["case"]]
         traces = ck.pmap("impl_c12", "observe", cases, nproc=1)
-        _validate(ck, traces, "replay")
+        _validate(ck, traces, "replay", alias=bool(blob["case"].get("alias", False)))
         return
 
-    # quick: one witness history per distinct state (state cover); thorough: one per explored transition
-    maxlen = 4
-    src = ck.q("MC_C12_cover", "MC_C12_states")
-    cfg = open(ck.spec + f"/{src}.cfg").read().replace("MaxLen = 5", f"MaxLen = {maxlen}")
-    open(ck.spec + "/MC_C12_run.cfg", "w").write(cfg)
-    res = ck.tlc("MC_C12", "MC_C12_run", workers=1, label=f"state space MaxLen={maxlen} (VIEW hides history), {ck.q('state','transition')} cover export", required_actions=["Next"], timeout=3000)
-    hists = [r for r in res.by_tag("HIST")]
-    if len(hists) < 100:
-        raise MachineryFailure("too few histories exported")
     model_classes = set()
-    for r in hists:
-        for c in r["stale"]:
-            model_classes.add((c["layer"], c["probe"]))
+    ck.cov["simulated_histories"] = 0
+    ck.cov["bound"] = {}
+    for alias in (False, True):
+        tag = "alias" if alias else "user"
+        A = "Alias = TRUE" if alias else "Alias = FALSE"
+        # quick: one witness history per distinct state (state cover); thorough: one per explored transition
+        maxlen = 4
+        src = ck.q("MC_C12_cover", "MC_C12_states")
+        cfg = open(ck.spec + f"/{src}.cfg").read().replace("MaxLen = 5", f"MaxLen = {maxlen}").replace("Alias = FALSE", A)
+        open(ck.spec + f"/MC_C12_run_{tag}.cfg", "w").write(cfg)
+        res = ck.tlc("MC_C12", f"MC_C12_run_{tag}", workers=1, label=f"[{tag}] state space MaxLen={maxlen} (VIEW hides history), {ck.q('state','transition')} cover export", required_actions=["Next"], timeout=3000)
+        hists = [r for r in res.by_tag("HIST")]
+        if len(hists) < 100:
+            raise MachineryFailure("too few histories exported")
+        for r in hists:
+            for c in r["stale"]:
+                model_classes.add((c["layer"], c["probe"]))
+        ck.cov["bound"][tag] = {"MaxLen": maxlen, "histories": len(hists)}
+        cases = [{"h": r["h"], "alias": alias} for r in hists]
+        ck.sample({"alphabet": tag, "history": cases[len(cases) // 2]["h"]})
+        traces = ck.pmap("impl_c12", "observe", cases)
+        bad = [t for t in traces if "_error" in t]
+        if bad:
+            raise MachineryFailure("replay error: " + str(bad[0]))
+        _validate(ck, traces, f"cover-{tag}", alias)
+
+        # beyond the bound: random longer histories generated by TLC's simulator
+        n_sim = ck.q(150, 4000)
+        depth = ck.q(10, 14)
+        cfg = open(ck.spec + "/MC_C12_hist.cfg").read().replace("MaxLen = 3", f"MaxLen = {depth + 5}").replace("ExportLen = 3", f"ExportLen = {depth}").replace("Alias = FALSE", A)
+        open(ck.spec + f"/MC_C12_sim_{tag}.cfg", "w").write(cfg)
+        res = ck.tlc("MC_C12", f"MC_C12_sim_{tag}", workers=1, simulate=n_sim, depth=depth + 1, label=f"[{tag}] simulation depth={depth}", timeout=1800)
+        sims = [{"h": r["h"], "alias": alias} for r in res.by_tag("HIST")]
+        # TLC's simulator evaluates the exporting invariant on every successor of the last state
+        # it visits, so behaviours come in families sharing a prefix: keep a seeded sample of each
+        rnd = random.Random(ck.seed)
+        fam = {}
+        for c in sims:
+            fam.setdefault(str(c["h"][:-1]), []).append(c)
+        sims = [c for k in sorted(fam) for c in rnd.sample(fam[k], min(3, len(fam[k])))]
+        if sims:
+            ck.sample({"alphabet": tag, "simulated_history": sims[0]["h"]})
+            traces = ck.pmap("impl_c12", "observe", sims)
+            _validate(ck, traces, f"sim-{tag}", alias)
+        ck.cov["simulated_histories"] += len(sims)
     ck.cov["model_level_stale_classes"] = sorted(list(x) for x in model_classes)
     ck.cov["exhaustive"] = True
-    ck.cov["bound"] = {"MaxLen": maxlen}
-    cases = [{"h": r["h"]} for r in hists]
-    ck.sample({"history": cases[len(cases) // 2]["h"]})
-    traces = ck.pmap("impl_c12", "observe", cases)
-    bad = [t for t in traces if "_error" in t]
-    if bad:
-        raise MachineryFailure("replay error: " + str(bad[0]))
-    _validate(ck, traces, "cover")
-
-    # beyond the bound: random longer histories generated by TLC's simulator
-    n_sim = ck.q(300, 6000)
-    depth = ck.q(10, 14)
-    cfg = open(ck.spec + "/MC_C12_hist.cfg").read().replace("MaxLen = 3", f"MaxLen = {depth + 5}").replace("ExportLen = 3", f"ExportLen = {depth}")
-    open(ck.spec + "/MC_C12_sim.cfg", "w").write(cfg)
-    res = ck.tlc("MC_C12", "MC_C12_sim", workers=1, simulate=n_sim, depth=depth + 1, label=f"simulation depth={depth}", timeout=1800)
-    sims = [{"h": r["h"]} for r in res.by_tag("HIST")]
-    # TLC's simulator evaluates the exporting invariant on every successor of the last state
-    # it visits, so behaviours come in families sharing a prefix: keep a seeded sample of each
-    rnd = random.Random(ck.seed)
-    fam = {}
-    for c in sims:
-        fam.setdefault(str(c["h"][:-1]), []).append(c)
-    sims = [c for k in sorted(fam) for c in rnd.sample(fam[k], min(3, len(fam[k])))]
-    if sims:
-        ck.sample({"simulated_history": sims[0]["h"]})
-        traces = ck.pmap("impl_c12", "observe", sims)
-        _validate(ck, traces, "sim")
-    ck.cov["simulated_histories"] = len(sims)
+    ck.cov["evaluations"] = ck.cov["traces_validated_against_impl"]
+    ck.cov["rule"] = "histories of registry calls exported by TLC (one per distinct state / transition of the bounded instance, plus simulated ones) replayed on a real registry; non-trivial = the history contains an edit (add/modify/remove/define) of a symbol after some string mentioning it was resolved"
+    ck.cov["distinct_nontrivial"] = _nontrivial
